@@ -393,8 +393,17 @@ let spec_case (w : string list) : string =
        | None -> "NOSPEC")
   | _ -> "NOFETCH"
 
+(* tsafe <hex> <addr>: scratch-register definite-assignment check of the lifted IL *)
+let tsafe_case (w : string list) : string =
+  let bs = bytes_of_hex (List.nth w 0) in
+  let addr = z_of_int (ios (List.nth w 1)) in
+  match dec_decode bs with
+  | DOk i -> if ts_safe i addr then "SAFE" else "UNSAFE " ^ mnemonic i
+  | _ -> "NODECODE"
+
 let handle (w : string list) : string =
   match w with
+  | "tsafe" :: rest -> tsafe_case rest
   | "spec" :: rest -> spec_case rest
   | "info" :: rest -> info_case rest
   | "render" :: rest -> render_case rest
